@@ -316,6 +316,11 @@ func main() {
 					}
 				case "release":
 					sched.Release(pt)
+				case "pause":
+					// let a goroutine that has no hook of its own run up to the lock the held goroutine owns
+					ms := 0
+					fmt.Sscanf(arg, "%d", &ms)
+					time.Sleep(time.Duration(ms) * time.Millisecond)
 				case "await":
 					if _, ok := sched.AwaitEvent(mark, 700*time.Millisecond, func(e gate.Event) bool { return e.Name == arg }); !ok {
 						happened = false
